@@ -56,6 +56,7 @@ type axiomRange struct {
 type Unit struct {
 	axioms []axiomRange
 	aliases map[string]string // rename tolerance: contract name -> current local name
+	allLocals map[string]string
 	eng     *Engine
 	c       *Ctx
 	m       *Mem
